@@ -459,3 +459,14 @@ func (c *Campaign[S]) Check(t *testing.T) {
 	})
 	rec.Completed()
 }
+
+// LenBias draws the minimum length for a generated sequence: rapid prefers short slices, so
+// half of the sequences get a floor of about a third or two thirds of the maximum.  All
+// randomness stays inside rapid (shrinking lowers the floor first).
+func LenBias(rt *rapid.T, lo, hi int) int {
+	f := rapid.SampledFrom([]int{lo, lo, lo + (hi-lo)/3, lo + 2*(hi-lo)/3}).Draw(rt, "min-length")
+	if f < lo {
+		f = lo
+	}
+	return f
+}
